@@ -454,6 +454,8 @@ def pack_into_passes(nng, arch, verbose_packing=False):
                 or next_op.type in (Op.Abs, Op.LeakyRelu)
                 # a memory copy (DMA) cannot apply an activation at all
                 or next_op.type == Op.Memcpy
+                # a transpose is recognised by the producer of its OFM tensor when the OFM strides are swapped
+                or next_op.original_type == Op.Transpose
             ):
                 return False
             # Nor can curr_op be packed with next_op if it only reads a slice of next_op's ofm
